@@ -148,7 +148,11 @@ def gen_eps(r):
     return r.loguniform(0.02, 50.0)
 
 
-def gen_n(r, ctx):
+def gen_n(r, ctx, d=None, degenerate_p=0.15):
+    """number of records; with probability `degenerate_p` a degenerate shape: a single record, two or three, fewer records
+    than features / classes / clusters, exactly as many"""
+    if d is not None and r.chance(degenerate_p):
+        return max(1, r.choice([1, 2, 3, d - 1, d, d + 1, max(1, d // 2), r.randint(1, 5)]))
     if ctx.tier == "thorough" and r.chance(0.25):
         return r.randint(61, 400)
     return r.randint(6, 60) if r.chance(0.7) else r.randint(6, 14)
@@ -192,10 +196,20 @@ def shell_rows(r, n, d, R, centre, delta):
 
 
 def gen_case(r, ctx, model):
+    case = _gen_case(r, ctx, model)
+    if not case.get("prefit") and r.chance(0.25):
+        keys = [k_ for k_ in LIFECYCLE_KEYS[model] if r.chance(0.75 if k_ == "epsilon" else 0.35)]
+        case["lifecycle"] = {"how": r.choice(["set_params", "attr", "clone", "clone_after"]),
+                             "keys": keys or ["epsilon"]}
+    return case
+
+
+def _gen_case(r, ctx, model):
     if model in ("pca", "logreg") and r.chance(0.3):
         return gen_shell_case(r, ctx, model)
     d = r.randint(1, 10) if r.chance(0.7) else r.randint(1, 3)
-    n = gen_n(r, ctx)
+    n = gen_n(r, ctx, d)
+    deg = n < 6          # degenerate shape: keep it (the estimator may refuse it: that is an outcome, not an error)
     mode = r.choice(["in", "mixed", "mixed", "corner", "corner", "onecorner"])
     case = {"model": model, "seed": r.randint(0, 2 ** 31 - 2), "mode": mode}
     p = {"epsilon": gen_eps(r)}
@@ -204,7 +218,7 @@ def gen_case(r, ctx, model):
         p["lo"], p["hi"], p["scalar_bounds"] = lo, hi, sc
     if model == "gnb":
         k = r.randint(2, 4)
-        n = max(n, 2 * k)
+        n = n if deg else max(n, 2 * k)
         p["k"] = k
         case["X"] = gen_rows(r, n, lo, hi, mode)
         case["y"] = gen_labels(r, n, k)
@@ -216,7 +230,7 @@ def gen_case(r, ctx, model):
         k = r.randint(2, 4)
         p["k"] = k
         p["epsilon"] = r.loguniform(0.05, 5000.0)        # iterations = clamp(eps/eps_m, 2, 7) needs large eps
-        n = max(n, k)
+        n = n if deg else max(n, k)
         case["X"] = gen_rows(r, n, lo, hi, mode)
     elif model == "linreg":
         t = r.choice([1, 1, 2, 3, 4])
@@ -236,7 +250,7 @@ def gen_case(r, ctx, model):
         case["y"] = gen_rows(r, n, ylo, yhi, mode)
     elif model == "logreg":
         k = r.randint(2, 4)
-        n = max(n, 2 * k)
+        n = n if deg else max(n, 2 * k)
         p["k"] = k
         p["data_norm"] = r.choice([1.0, 0.5, 3.0, r.loguniform(0.1, 20)])
         p["fit_intercept"] = r.chance(0.7)
@@ -249,7 +263,8 @@ def gen_case(r, ctx, model):
     elif model == "pca":
         p["centered"] = r.chance(0.5)
         nc = r.choice([None, None, "k", "k", "d", 0.5])
-        n = max(n, d + 1)
+        if r.chance(0.35):
+            n = r.randint(1, max(1, d))       # fewer records than features (n_components None / >= n / in between)
         if nc == "k":
             nc = r.randint(1, d)
         elif nc == "d":
@@ -277,7 +292,9 @@ def gen_shell_case(r, ctx, model):
     """norm-domain models on a thin shell: the largest (centred) row norm is data_norm*(1+delta) with every other row
     inside the ball — a clip that is skipped 'within tolerance' lets that row reach the mechanisms unclipped"""
     d = r.randint(2, 10) if r.chance(0.85) else 1
-    n = max(gen_n(r, ctx), d + 1)
+    n = gen_n(r, ctx, d, 0.1)
+    if model == "pca" and r.chance(0.35):
+        n = r.randint(1, d)
     R = r.choice([1.0, 1.0, 0.5, 3.0, r.loguniform(0.1, 20)])
     delta = shell_delta(r)
     case = {"model": model, "seed": r.randint(0, 2 ** 31 - 2), "mode": "shell"}
@@ -293,7 +310,7 @@ def gen_shell_case(r, ctx, model):
             case["force_mean"] = centre      # the noisy mean the recording run replays (any value is a possible output)
     else:
         k = r.randint(2, 4)
-        n = max(n, 2 * k)
+        n = n if n < 6 else max(n, 2 * k)
         p["k"], p["fit_intercept"], p["C"] = k, r.chance(0.7), r.choice([1.0, 0.1, 10.0])
         p["lo"], p["hi"] = [-R] * d, [R] * d
         case["y"] = gen_labels(r, n, k)
@@ -330,6 +347,13 @@ def shell_replacements(r, case):
         e[b] = R * (1 + dl)
         rep(i0, e, "shell-axis")
     rep(i0, [-x for x in v], "shell-negated")
+    if len(X) >= 2:
+        # the direction of another record, at full length (two records in one direction vs two orthogonal ones)
+        j2 = (i0 + 1 + r.randint(0, len(X) - 2)) % len(X)
+        v2 = [x - ci for x, ci in zip(X[j2], c)]
+        n2 = math.sqrt(sum(x * x for x in v2))
+        if n2 > 0:
+            rep(i0, [x * R / n2 for x in v2], "shell-parallel")
     rep(i0, [x * 0.5 for x in unit_vector(r, d)], "shell-interior")
     j = (i0 + 1) % len(X)
     rep(j, [R * (1 + shell_delta(r)) * x for x in unit_vector(r, d)], "shell-second",
@@ -430,34 +454,101 @@ def build(case):
         else:
             model.bounds = _bounds_arg(p)
         return model
+    cls, kw = ctor(case)
+    lc = case.get("lifecycle")
+    if not lc:
+        return cls(**kw)
+    # constructed with OTHER parameters, changed to the case's parameters before fit: the noise invocations must be
+    # configured from the CURRENT parameters
+    kw1 = dict(kw)
+    for key in lc["keys"]:
+        kw1[key] = alt_value(case, key, kw[key])
+    model = cls(**kw1)
+    new = {key: kw[key] for key in lc["keys"]}
+    from sklearn.base import clone
+    if lc["how"] == "set_params":
+        model.set_params(**new)
+    elif lc["how"] == "attr":
+        for key, v in new.items():
+            setattr(model, key, v)
+    elif lc["how"] == "clone":
+        model = clone(model).set_params(**new)
+    else:
+        model.set_params(**new)
+        model = clone(model)
+    return model
+
+
+LIFECYCLE_KEYS = {
+    "gnb": ["epsilon", "bounds"], "scaler": ["epsilon", "bounds", "with_std", "with_mean"],
+    "kmeans": ["epsilon", "bounds", "n_clusters"], "linreg": ["epsilon", "bounds_X", "bounds_y", "fit_intercept"],
+    "logreg": ["epsilon", "data_norm", "C", "fit_intercept"], "pca": ["epsilon", "data_norm", "n_components", "centered"],
+    "forest": ["epsilon", "bounds", "n_estimators", "max_depth", "classes", "shuffle"],
+    "tree": ["epsilon", "bounds", "max_depth", "classes"],
+}
+
+
+def alt_value(case, key, v):
+    """a different value of constructor parameter `key` (deterministic in the case)"""
+    rr = gen.SplitMix64(case["seed"] * 13 + sum(map(ord, key)))
+    if key == "epsilon":
+        return v * rr.choice([0.01, 0.1, 10.0, 50.0])
+    if key in ("bounds", "bounds_X", "bounds_y"):
+        if v is None:
+            return None
+        a, b = v
+        w = np.asarray(b, dtype=float) - np.asarray(a, dtype=float)
+        a2, b2 = np.asarray(a, dtype=float) + 0.25 * w, np.asarray(b, dtype=float) - 0.25 * w
+        return (float(a2), float(b2)) if np.ndim(a2) == 0 else (a2, b2)
+    if key == "data_norm":
+        return v * rr.choice([0.2, 5.0])
+    if key == "C":
+        return v * rr.choice([0.1, 10.0])
+    if key == "n_components":
+        return 1 if v is None else (None if rr.chance(0.5) or not isinstance(v, int) else v + 1)
+    if key == "n_clusters":
+        return 2 + (v - 2 + 1 + rr.randint(0, 1)) % 3
+    if key in ("n_estimators", "max_depth"):
+        return 1 + (v + rr.randint(0, 2)) % 4
+    if key == "classes":
+        return list(v) + [len(v)]
+    if isinstance(v, bool):
+        return not v
+    return v
+
+
+def ctor(case):
+    """(class, constructor keyword arguments) of a case"""
     p, m, rs = case["params"], case["model"], case["seed"]
     M = dp.models
     acc = dp.BudgetAccountant()
     if m == "gnb":
-        return M.GaussianNB(epsilon=p["epsilon"], bounds=_bounds_arg(p), random_state=rs, accountant=acc)
+        return M.GaussianNB, dict(epsilon=p["epsilon"], bounds=_bounds_arg(p), random_state=rs, accountant=acc)
     if m == "scaler":
-        return M.StandardScaler(epsilon=p["epsilon"], bounds=_bounds_arg(p), with_std=p["with_std"],
-                                with_mean=p["with_mean"], random_state=rs, accountant=acc)
+        return M.StandardScaler, dict(epsilon=p["epsilon"], bounds=_bounds_arg(p), with_std=p["with_std"],
+                                      with_mean=p["with_mean"], random_state=rs, accountant=acc)
     if m == "kmeans":
-        return M.KMeans(p["k"], epsilon=p["epsilon"], bounds=_bounds_arg(p), random_state=rs, accountant=acc)
+        return M.KMeans, dict(n_clusters=p["k"], epsilon=p["epsilon"], bounds=_bounds_arg(p), random_state=rs,
+                              accountant=acc)
     if m == "linreg":
-        return M.LinearRegression(epsilon=p["epsilon"], bounds_X=_bounds_arg(p),
-                                  bounds_y=_bounds_arg(p, "ylo", "yhi", "yscalar"),
-                                  fit_intercept=p["fit_intercept"], random_state=rs, accountant=acc)
+        return M.LinearRegression, dict(epsilon=p["epsilon"], bounds_X=_bounds_arg(p),
+                                        bounds_y=_bounds_arg(p, "ylo", "yhi", "yscalar"),
+                                        fit_intercept=p["fit_intercept"], random_state=rs, accountant=acc)
     if m == "logreg":
-        return M.LogisticRegression(epsilon=p["epsilon"], data_norm=p["data_norm"], fit_intercept=p["fit_intercept"],
-                                    C=p["C"], random_state=rs, accountant=acc)
+        return M.LogisticRegression, dict(epsilon=p["epsilon"], data_norm=p["data_norm"],
+                                          fit_intercept=p["fit_intercept"], C=p["C"], random_state=rs, accountant=acc)
     if m == "pca":
-        return M.PCA(p["n_components"], epsilon=p["epsilon"], centered=p["centered"],
-                     bounds=None if p["centered"] else _bounds_arg(p), data_norm=p["data_norm"], random_state=rs,
-                     accountant=acc)
+        return M.PCA, dict(n_components=p["n_components"], epsilon=p["epsilon"], centered=p["centered"],
+                           bounds=None if p["centered"] else _bounds_arg(p), data_norm=p["data_norm"], random_state=rs,
+                           accountant=acc)
     if m == "forest":
-        return M.RandomForestClassifier(n_estimators=p["n_estimators"], epsilon=p["epsilon"], bounds=_bounds_arg(p),
-                                        classes=list(range(p["k"])), max_depth=p["max_depth"], shuffle=p["shuffle"],
-                                        random_state=rs, accountant=acc)
+        return M.RandomForestClassifier, dict(n_estimators=p["n_estimators"], epsilon=p["epsilon"],
+                                              bounds=_bounds_arg(p), classes=list(range(p["k"])),
+                                              max_depth=p["max_depth"], shuffle=p["shuffle"], random_state=rs,
+                                              accountant=acc)
     if m == "tree":
-        return M.DecisionTreeClassifier(max_depth=p["max_depth"], epsilon=p["epsilon"], bounds=_bounds_arg(p),
-                                        classes=list(range(p["k"])), random_state=rs, accountant=acc)
+        return M.DecisionTreeClassifier, dict(max_depth=p["max_depth"], epsilon=p["epsilon"], bounds=_bounds_arg(p),
+                                              classes=list(range(p["k"])), random_state=rs, accountant=acc)
     raise ValueError(m)
 
 
@@ -565,6 +656,10 @@ class Rec:
 
 class Mismatch(Exception):
     pass
+
+
+class Refused(Exception):
+    """the estimator refused the training set itself (degenerate shape): an outcome, not a failure of the check"""
 
 
 def run_fit(case, X, y, forced=None):
@@ -765,7 +860,10 @@ def check_case(ctx, case, reps, want_trace=False):
     """record on D, force on each neighbour, account.  Returns (fitted model, recD, prD, n_violations)."""
     X, y = case["X"], case.get("y")
     ylab = None if y is None else [tuple(v) if isinstance(v, list) else v for v in y]
-    model, recD, prD, _ = run_fit(case, X, y)
+    try:
+        model, recD, prD, _ = run_fit(case, X, y)
+    except (ValueError, np.linalg.LinAlgError, ZeroDivisionError) as e:
+        raise Refused(f"{type(e).__name__}: {str(e)[:100]}")
     if case["model"] == "logreg":
         # the recording run: capture what the losses are handed by re-running forced with its own outputs
         _, recD, prD, _ = run_fit(case, X, y, forced=[r_.result for r_ in recD])
@@ -777,7 +875,7 @@ def check_case(ctx, case, reps, want_trace=False):
         y2lab = None if y2 is None else [tuple(v) if isinstance(v, list) else v for v in y2]
         try:
             _, recD2, prD2, mismatch = run_fit(case, X2, y2, forced=forced)
-        except ValueError as e:
+        except (ValueError, np.linalg.LinAlgError, ZeroDivisionError) as e:
             # e.g. LogisticRegression with a class that vanished
             ctx.count("neighbour_refused")
             continue
@@ -1017,6 +1115,9 @@ def check(ctx):
             reps = gen_replacements(r, case, n_reps)
             try:
                 fitted, recD, prD, _ = check_case(ctx, case, reps)
+            except Refused as e:
+                ctx.count("training_set_refused_" + model)
+                continue
             except Exception as e:  # a crash of fit on a generated case is a bug of the generator, keep it visible
                 ctx.note(f"{model}: {type(e).__name__}: {str(e)[:160]}")
                 ctx.count("fit_errors")
@@ -1057,7 +1158,10 @@ def replay(ctx, data):
             return {k: fix(v) for k, v in x.items()}
         return u(x)
     case, rep = fix(d["case"]), fix(d["replacement"])
-    _, _, _, nviol = check_case(ctx, case, [rep])
+    try:
+        _, _, _, nviol = check_case(ctx, case, [rep])
+    except Refused:
+        return False
     return nviol > 0
 
 
